@@ -123,7 +123,8 @@ Fixpoint less (O : oracles) (f : frame) (by_ : list str) (asc : bool) (i j : nat
       end
     end
   end.
-(* sort.Sort is modelled by a stable insertion sort of the row positions *)
+(* sort.Sort is modelled by an insertion sort of the row positions (ties come out in reverse
+   input order; tie order is never compared with the implementation) *)
 Fixpoint insert_by (lt : nat -> nat -> bool) (x : nat) (l : list nat) : list nat :=
   match l with
   | [] => [x]
@@ -254,10 +255,13 @@ Definition apply_fn (id : nat) (x : list cell) : aresult :=
   | 9%nat => RAny x          (* hands back its own argument slice (only used where that is allowed) *)
   | 10%nat => RAny (firstn (Nat.div2 (length x)) x)   (* a shorter slice *)
   | 11%nat => RAny (x ++ [CS s_k])                    (* a longer slice *)
+  | 12%nat => RInts (map Z.of_nat (seq 0 (Nat.div2 (length x))))     (* a shorter []int *)
+  | 13%nat => RStrs (map (fun _ => s_k) x ++ [s_k])                  (* a longer []string *)
   | _ => RAny (map (fun c => match c with CS _ => CNil | _ => c end) x)
   end.
-(* the functions of the menu that return as many cells as they receive (all but 10 and 11) *)
-Definition fn_keeps_length (id : nat) : bool := negb (Nat.eqb id 10 || Nat.eqb id 11).
+(* the functions of the menu that return as many cells as they receive (all but 10-13) *)
+Definition fn_keeps_length (id : nat) : bool :=
+  negb (Nat.eqb id 10 || Nat.eqb id 11 || Nat.eqb id 12 || Nat.eqb id 13).
 Definition apply_col (id : nat) (d : list cell) : out (list cell) :=
   match apply_fn id d with
   | RAny l => Ok l
